@@ -179,8 +179,67 @@ fn render(rng : &mut Rng, r : &Rule) -> Option<String>
     Some(format!("{}\n:\n{}\n:\n{}\n:\n", t.join("\n"), s.join("\n"), r.command.join("\n")))
 }
 
+/*  A small universe, exhaustively: every rule whose targets and sources are 1-2 strings and whose command is 1-2
+    lines over eight strings chosen to confuse a serialisation (':' in front, behind, doubled; a string that is two
+    others written back to back; a leading space).  Identities must be pairwise different across the whole universe -
+    not just between a rule and its near-misses. */
+const UNIVERSE : &[&str] = &["a", "b", "ab", ":a", ":b", "a:", "::a", " a"];
+
+fn universe(params : &Params, tally : &mut Tally)
+{
+    let n = UNIVERSE.len();
+    let mut sets : Vec<Vec<String>> = vec![];
+    for i in 0..n
+    {
+        sets.push(vec![UNIVERSE[i].to_string()]);
+        for j in (i + 1)..n { sets.push(vec![UNIVERSE[i].to_string(), UNIVERSE[j].to_string()]); }
+    }
+    let mut commands : Vec<Vec<String>> = vec![];
+    for i in 0..n
+    {
+        commands.push(vec![UNIVERSE[i].to_string()]);
+        for j in 0..n { commands.push(vec![UNIVERSE[i].to_string(), UNIVERSE[j].to_string()]); }
+    }
+    let mut seen : std::collections::HashMap<String, (usize, usize, usize)> = std::collections::HashMap::new();
+    let mut reported = 0;
+    for (ti, t) in sets.iter().enumerate()
+    {
+        for (si, s) in sets.iter().enumerate()
+        {
+            for (ci, c) in commands.iter().enumerate()
+            {
+                let identity = Rule::new(t.clone(), s.clone(), c.clone()).get_ticket().human_readable();
+                tally.cases_run += 1;
+                tally.eval(mix(ti as u64, mix(si as u64, ci as u64 + 7)), true);
+                if let Some((t2, s2, c2)) = seen.insert(identity, (ti, si, ci))
+                {
+                    tally.counts.inc("universe_collisions");
+                    if reported < 5
+                    {
+                        reported += 1;
+                        let v = Violation::new("C13", "different-rules-same-identity",
+                            format!("rules (targets {:?}, sources {:?}, command {:?}) and (targets {:?}, sources {:?}, command {:?}) have the same identity",
+                                t, s, c, sets[t2], sets[s2], commands[c2]));
+                        emit_violation(params, tally, (ti * 1000 + si) as u64, &v, J::obj(vec![("pair_kind", J::s("universe"))]));
+                    }
+                    else { tally.violations += 1; }
+                }
+            }
+        }
+    }
+    tally.counts.add("universe_rules", (sets.len() * sets.len() * commands.len()) as u64);
+}
+
 pub fn drive()
 {
+    if crate::verif::util::env_str("VERIF_STAGE", "") == "universe"
+    {
+        let params = Params::from_env("ident");
+        let mut tally = Tally::new();
+        universe(&params, &mut tally);
+        tally.emit_summary(&params, false);
+        return;
+    }
     let params = Params::from_env("ident");
     let mut tally = Tally::new();
     let mut timed_out = false;
